@@ -153,6 +153,37 @@ ListVersions(b) ==
                         [i \in DOMAIN Stack(b, k) |-> [vid |-> Stack(b, k)[i].vid, dm |-> Stack(b, k)[i].dm,
                                                        c |-> Stack(b, k)[i].c, latest |-> i = 1]]]]))
 
+(****************************** tagging ***********************************)
+\* vid = "-": the current version.  Tagging changes the tag set of exactly the entry
+\* it addresses and nothing else: no new version, no other entry, no other field.
+TagTarget(b, k, vid) == IF vid = "-" THEN Head1(Stack(b, k)) ELSE EntryOf(Stack(b, k), vid)
+TagTargetOK(b, k, vid) == IF vid = "-" THEN Live(b, k) ELSE HasVid(Stack(b, k), vid) /\ ~EntryOf(Stack(b, k), vid).dm
+WithTags(s, vid, t) == [i \in DOMAIN s |-> IF (vid = "-" /\ i = 1) \/ (vid # "-" /\ s[i].vid = vid) THEN [s[i] EXCEPT !.tags = t] ELSE s[i]]
+SetObjectTagging(op, b, k, vid, t) ==
+    LET a == [b |-> b, k |-> k, vid |-> vid, tags |-> t] IN
+    /\ IF ~Exists(b) THEN UNCHANGED state /\ Log(op, a, Err("NoSuchBucket"))
+       ELSE IF ~TagTargetOK(b, k, vid) THEN UNCHANGED state /\ Log(op, a, Err(IF vid = "-" THEN "NoSuchKey" ELSE "NoSuchVersion"))
+       ELSE /\ objs' = [objs EXCEPT ![<<b, k>>] = WithTags(@, vid, t)]
+            /\ UNCHANGED <<bkts, ups, nvid, nup>>
+            /\ Log(op, a, OK([vid |-> TagTarget(b, k, vid).vid]))
+PutObjectTagging(b, k, vid, t) == SetObjectTagging("PutObjectTagging", b, k, vid, t)
+DeleteObjectTagging(b, k, vid) == SetObjectTagging("DeleteObjectTagging", b, k, vid, "-")
+GetObjectTagging(b, k, vid) ==
+    LET a == [b |-> b, k |-> k, vid |-> vid] IN
+    /\ UNCHANGED state
+    /\ IF ~Exists(b) THEN Log("GetObjectTagging", a, Err("NoSuchBucket"))
+       ELSE IF ~TagTargetOK(b, k, vid) THEN Log("GetObjectTagging", a, Err(IF vid = "-" THEN "NoSuchKey" ELSE "NoSuchVersion"))
+       ELSE Log("GetObjectTagging", a, OK([tags |-> TagTarget(b, k, vid).tags]))
+
+\* HEAD: the metadata of the current version without the body
+HeadObject(b, k) ==
+    LET a == [b |-> b, k |-> k] IN
+    /\ UNCHANGED state
+    /\ IF ~Exists(b) THEN Log("HeadObject", a, Err("NoSuchBucket"))
+       ELSE IF ~Live(b, k) THEN Log("HeadObject", a, Err("NoSuchKey"))
+       ELSE Log("HeadObject", a, OK([etag |-> Head1(Stack(b, k)).c, meta |-> Head1(Stack(b, k)).meta, vid |-> Head1(Stack(b, k)).vid,
+                                     size |-> Head1(Stack(b, k)).c]))
+
 (***************************** deleting ***********************************)
 \* Deleting a key that has no version at all is a successful no-op here (S3 itself would
 \* add a marker in a versioned bucket; the statements only speak about existing keys).
@@ -201,10 +232,16 @@ TypeOK == UniqueVids /\ UnversionedSingle /\ NoOrphans
 \* C09: in an Enabled bucket no step other than DeleteObjectVersion removes or alters
 \* an existing version entry (action property)
 Preserved(s, t) == \A i \in DOMAIN s : s[i].vid # "null" => \E j \in DOMAIN t : t[j] = s[i]
+\* a tagging request may change the tag set of the entry it addresses - nothing else, and
+\* the stack keeps its order
+SameButTags(s, t) == Len(s) = Len(t) /\ \A i \in DOMAIN s : [t[i] EXCEPT !.tags = s[i].tags] = s[i]
 VersionsPreserved ==
     [][\A b \in Buckets, k \in Keys :
          (Exists(b) /\ bkts[b].ver \in {"Enabled", "Suspended"} /\ Exists(b)' /\ Len(tr') > Len(tr)
-            /\ tr'[Len(tr')].op # "DeleteObjectVersion") => Preserved(Stack(b, k), Stack(b, k)')]_vars
+            /\ tr'[Len(tr')].op # "DeleteObjectVersion") =>
+                IF tr'[Len(tr')].op \in {"PutObjectTagging", "DeleteObjectTagging"}
+                THEN SameButTags(Stack(b, k), Stack(b, k)')
+                ELSE Preserved(Stack(b, k), Stack(b, k)')]_vars
 
 View == state
 =============================================================================
